@@ -105,6 +105,9 @@ class Adapter(EnvAdapter):
                    policies=["greedy", "lazy", "mostly_masked"]),
                 _c("rnd_j2m2o2d2", "random", 2, 2, 2, 2, 18, 14, policies=full),
                 _c("rnd_j4m3o3d3", "random", 4, 3, 3, 3, 8, 44, probe_every=2, probe_cap=28, policies=full),
+                # more machines than jobs, more ops than either, long durations: every size parameter is the largest once
+                _c("rnd_j2m5o3d2", "random", 2, 5, 3, 2, 5, 20, probe_every=2, probe_cap=40, policies=full),
+                _c("rnd_j3m2o6d7", "random", 3, 2, 6, 7, 4, 60, probe_every=4, probe_cap=16, policies=["greedy", "serial", "lazy", "masked"]),
                 _c("toy_j5m4o4d4", "toy", 5, 4, 4, 4, 5, 50, probe_every=3, probe_cap=40,
                    policies=["greedy", "serial", "lazy", "mostly_masked", "masked"]),
                 _c("worst_j2m2o2d2", "worst", 2, 2, 2, 2, 6, 14, policies=["serial", "greedy", "lazy"]),
